@@ -6,6 +6,7 @@ import Driver.Report
 import Driver.Labels
 import Driver.Coproc
 import Driver.CaseRepo
+import Driver.Config
 /-
   Driver: one request per line on stdin, one answer per line on stdout.
   Unknown or malformed lines answer `bad` (never a default).
@@ -22,6 +23,7 @@ def handle (line : String) : String :=
   else if l.startsWith "report " then handleReport l
   else if l.startsWith "coproc " then handleCoproc l
   else if l.startsWith "repo " then handleRepo l
+  else if l.startsWith "config " then handleConfig l
   else if l.startsWith "label " then handleLabel l
   else if l.startsWith "labelfile " then handleLabelFile l
   else if l.startsWith "idx " then handleIdx l
